@@ -2,6 +2,11 @@ NOTES = ("All checks: ./check <ID> --tier quick|thorough, VERIF_SEED respected, 
          "fix: commits in /repo are listed in known_findings.json as fixed entries.")
 NOT_APPLICABLE = {}
 CHECKS = {
+ "C16": {
+  "technique": "generated-input differential testing across separate interpreter processes (PYTHONHASHSEED x formatter configuration x set construction history); batch generated with Hypothesis",
+  "text": "A Hypothesis-generated batch of set/frozenset/dict-rich values is created by one interpreter process per (hash seed, formatter) cell, each value in three construction histories; texts must be byte-identical across seeds and histories and have the same syntax tree and value across black / no black / format-command. Exploration.",
+  "note": "hash seeds 0-5 and two random ones, four formatter configurations, black 26.5.1 only; dict insertion order is treated as part of the value",
+ },
  "C14": {
   "technique": "Hypothesis property-based testing of generated multi-site programs with scripted interleavings against an independent per-site aggregation; per-site disjoint value ranges make leakage visible",
   "text": "3-12 sites in 7 placement styles (incl. two calls on one line, lambdas on one line, helpers, comprehensions, module-level names shared by tests, two files) are evaluated in a generated interleaving; after create and after a second fix+trim session every site must hold exactly the aggregation of its own observations and nothing outside its value range. A second arm changes the hand-written argument between evaluations and demands UsageError; a third runs parametrized and shared-site tests in real pytest sessions. Exploration.",
